@@ -161,6 +161,15 @@ def frontTimer (s : State) (i : Nat) : State :=
   | some .inManager => s.setPhase i (.resolved .timeout)
   | _ => s
 
+/-- a consumer of a subscription stream (`Drop` / `Subscription::unsubscribe`) queues
+`SubscriptionClosed` / `UnregisterNotification` for the send task: it gets in only while the front
+channel is open and has room (`try_send`; the awaited `send` of `unsubscribe` behaves the same as
+long as the channel is not full) -/
+def consumerMsg (s : State) : State :=
+  if s.frontClosed then s
+  else if s.queue.length < s.fcap then { s with queue := s.queue ++ [none] }
+  else s
+
 /-! ### send task -/
 
 /-- `from_frontend.recv()` yields a message (the `closed` arm of the biased select is not ready);
@@ -280,6 +289,7 @@ inductive Op where
   | frontDrop (i : Nat)
   | frontReadError (i : Nat)
   | frontTimer (i : Nat)
+  | consumerMsg
   | sendTake
   | sendOk
   | sendErr (tag : Nat)
@@ -301,6 +311,7 @@ def step (o : ExitOrder) (s : State) : Op → State
   | .frontDrop i => frontDrop s i
   | .frontReadError i => frontReadError s i
   | .frontTimer i => frontTimer s i
+  | .consumerMsg => consumerMsg s
   | .sendTake => sendTake s
   | .sendOk => sendOk s
   | .sendErr tag => sendErr o s tag
